@@ -164,14 +164,16 @@ std::string replaceEscapeSequences(const std::string &source) {
             } else if (source[i] == 't') {
                 result += '\t';
             } else if (source[i] == 'x') {
-                std::string value = "0";
-                if (i + 1 < source.size() && std::isxdigit(source[i+1]))
-                    value += source[i++ + 1];
-                if (i + 1 < source.size() && std::isxdigit(source[i+1]))
-                    value += source[i++ + 1];
-                result += static_cast<char>(std::stoi(value, nullptr, 16));
-            } else if (source[i] == '0') {
-                std::string value = "0";
+                // a hexadecimal escape sequence takes all following hexadecimal digits
+                unsigned int value = 0;
+                while (i + 1 < source.size() && std::isxdigit(static_cast<unsigned char>(source[i+1]))) {
+                    const unsigned char c = static_cast<unsigned char>(source[i++ + 1]);
+                    value = value * 16U + (std::isdigit(c) ? c - '0' : std::tolower(c) - 'a' + 10);
+                }
+                result += static_cast<char>(value);
+            } else if (source[i] >= '0' && source[i] <= '7') {
+                // an octal escape sequence has one to three digits
+                std::string value(1, source[i]);
                 if (i + 1 < source.size() && source[i+1] >= '0' && source[i+1] <= '7')
                     value += source[i++ + 1];
                 if (i + 1 < source.size() && source[i+1] >= '0' && source[i+1] <= '7')
